@@ -125,9 +125,14 @@ def mc_naive(n=5):
                                                    "ASSUME \\E t \\in Layouts : ~TransportByRebuildOK(t)"])
 
 
-def mc_tables(crit, maxlen, extra, full2d, sub2d, big, huge):
+def mc_tables(crit, maxlen, extra, full2d, sub2d, big, huge, bigsub):
     defs = [
         ("Huge", tla.lit([list(p) for p in huge])),
+        ("BigSub", tla.lit([list(p) for p in bigsub])),
+        # pixel values at the edge of a type's meaning: a lossless format stores every class as itself; the writers that
+        # blank non-finite values / flush subnormals are refuted
+        "ASSUME ValuesOK(StoreAsIs) /\\ ~ValuesOK(StoreBlankingNonFinite) /\\ ~ValuesOK(StoreFlushingToZero)",
+        "ASSUME \\A kind \\in ValueKinds : \\A cls \\in ValueClasses[kind] : TileOfClassStored(kind, cls) = (cls # UndefClass[kind])",
         # symbolic geometry for sizes 2^k + d: equal to the concrete operators for every pair that fits into 32 bits
         "Fam == {<<k, d>> \\in (0..29) \\X {-1, 0, 1} : 2^k + d >= 1}",
         "ASSUME \\A w \\in Fam, h \\in Fam : SymAgrees(w, h)",
@@ -148,6 +153,17 @@ def mc_tables(crit, maxlen, extra, full2d, sub2d, big, huge):
         "RectsT(t) == LET rs == Rects(t) IN [k \\in 1..Len(rs) |-> RectT(rs[k])]",
         "SegT(s) == [k \\in 1..Len(s) |-> <<s[k].tile, s[k].toff, s[k].ioff, s[k].len>>]",
         "SubOf(q) == SubTiling(Tiling(q[1], q[2]), q[3], q[4], q[5], q[6])",
+        # the caller's integers in any representation that holds them: slots and sub-image geometry are functions of the
+        # values; doing the addition in the caller's representation is refuted on these very cases
+        "ReprProbe(a) == {x \\in {0, 1, 127, 128, 200, 255, 256, 32767, 32768, 40000, 65535} : x < a.len}",
+        "ASSUME \\A i \\in DOMAIN Big : LET t == Tiling(Big[i][1], Big[i][2]) IN ReprSlotsOK(AxisSlotAnyRepr, t.x, ReprProbe(t.x)) "
+        "/\\ ReprSlotsOK(AxisSlotAnyRepr, t.y, ReprProbe(t.y))",
+        "ASSUME \\E i \\in DOMAIN Big : LET t == Tiling(Big[i][1], Big[i][2]) IN ~ReprSlotsOK(AxisSlotWrapping, t.x, ReprProbe(t.x))",
+        "ASSUME \\A i \\in DOMAIN BigSub : LET q == BigSub[i] t == Tiling(q[1], q[2]) IN ReprSubOK(SubAxisAnyRepr, t.x, q[3], q[5]) "
+        "/\\ ReprSubOK(SubAxisAnyRepr, t.y, q[4], q[6])",
+        "ASSUME \\E i \\in DOMAIN BigSub : LET q == BigSub[i] t == Tiling(q[1], q[2]) IN ~ReprSubOK(SubAxisWrapping, t.x, q[3], q[5])",
+        "ASSUME \\A i \\in DOMAIN BigSub : LET q == BigSub[i] t == SubOf(q) IN SegsOK(t.x) /\\ SegsOK(t.y) "
+        "/\\ SubTilingOK(Tiling(q[1], q[2]), <<q[3], q[4]>>, t)",
         # theorems on exactly the 2-D cases handed to the harness (interval form: cheap at TS = 256)
         "ASSUME \\A i \\in DOMAIN Full2D : IntervalPartitionOK(Tiling(Full2D[i][1], Full2D[i][2])) /\\ P2Minimal(Full2D[i][1], Full2D[i][2])",
         "ASSUME \\A i \\in DOMAIN Sub2D : IntervalPartitionOK(SubOf(Sub2D[i])) /\\ SubTilingOK(Tiling(Sub2D[i][1], Sub2D[i][2]), <<Sub2D[i][3], Sub2D[i][4]>>, SubOf(Sub2D[i]))",
@@ -164,6 +180,9 @@ def mc_tables(crit, maxlen, extra, full2d, sub2d, big, huge):
         "   big |-> [i \\in DOMAIN Big |-> LET t == Tiling(Big[i][1], Big[i][2]) IN [row |-> <<t.p2, t.lev, t.x.g0, t.y.g0, Count(t)>>, "
         "sx |-> SegT(AxisSegs(t.x)), sy |-> SegT(AxisSegs(t.y))]],\n"
         "   huge |-> [i \\in DOMAIN Huge |-> SymTiling(<<Huge[i][1], Huge[i][2]>>, <<Huge[i][3], Huge[i][4]>>)],\n"
+        "   bigsub |-> [i \\in DOMAIN BigSub |-> LET t == SubOf(BigSub[i]) IN [row |-> <<t.p2, t.lev, t.x.g0, t.y.g0, Count(t)>>, "
+        "sx |-> SegT(AxisSegs(t.x)), sy |-> SegT(AxisSegs(t.y))]],\n"
+        "   values |-> EdgeValueTable,\n"
         "   filerow |-> [topdown |-> [r \\in 1..TS |-> FileRow(\"topdown\", r - 1)], bottomup |-> [r \\in 1..TS |-> FileRow(\"bottomup\", r - 1)]]\n"
         "   ])" % (maxlen, maxlen),
     ]
@@ -182,6 +201,7 @@ class Tables(object):
         self.pair = {}      # (w, h) -> (p2, lev, gx0, gy0, count)
         self.filerow = {}   # parity -> list: display row r -> file row
         self.nested = {}    # (W, H, ix, iy, sw, sh) -> (jx, jy, nw, nh): a sub-image of that sub-image
+        self.values = {}    # kind (F | I | RGB | RGBA) -> {value class -> is a pixel of that class defined?}   (TLC: EdgeValueTable)
 
 
 T = Tables()
@@ -388,6 +408,102 @@ def _first_diff(t, s, et, es):
     return "pixel %d -> (%d,%d), table (%d,%d)" % (i, int(t[i]), int(s[i]), int(et[i]), int(es[i]))
 
 
+# ------------------------------------------------------------------------------------------------
+# the caller's integers in NumPy representations (spec: ReprSlotsOK / ReprSubOK - the geometry is a function of the VALUES)
+# ------------------------------------------------------------------------------------------------
+
+NP_INTS = ("uint8", "int8", "uint16", "int16", "uint32", "int32", "uint64", "int64")
+KEY_NPARGS = "subimage:numpy-integer-arguments"
+KEY_NPINDEX = "study:image_to_tile:numpy-integer-indexes"
+
+
+def np_holders(v):
+    """NumPy integer types that hold the value v, narrowest first (unsigned before signed of the same width)."""
+    import numpy as np
+    return [t for t in NP_INTS if np.iinfo(t).min <= v <= np.iinfo(t).max]
+
+
+def as_np_int(v, variant):
+    """v as a NumPy integer scalar: variant 0 narrowest type, 1 narrowest signed, 2 narrowest unsigned, 3 int64, 4 next wider than narrowest."""
+    import numpy as np
+    hs = np_holders(v)
+    if variant % 5 == 1:
+        hs = [t for t in hs if t.startswith("int")]
+    elif variant % 5 == 2:
+        hs = [t for t in hs if t.startswith("uint")]
+    elif variant % 5 == 3:
+        hs = ["int64"]
+    elif variant % 5 == 4:
+        hs = hs[2:] or hs
+    return getattr(np, hs[0])(v)
+
+
+def quiet(f, *a, **k):
+    """f(*a, **k) without NumPy's overflow warnings on stderr (what went wrong is judged from the results)."""
+    import warnings
+    with warnings.catch_warnings():
+        warnings.simplefilter("ignore")
+        return f(*a, **k)
+
+
+def coarse(items, key, how):
+    """Fold the failures of a representation case into ONE monitor key (the sentence that failed goes into the text)."""
+    return [(sev, key, "[%s, caller's integers as %s] %s" % (k, how, msg), case) if sev == "V" else (sev, k, msg, case)
+            for sev, k, msg, case in items]
+
+
+def repr_slots(st, w, h, segsx, segsy, case, variant):
+    """image_to_tile asked with index ARRAYS (and scalars) of narrow NumPy integer types: the pixels 0..n-1 of each axis
+    that the type can express, compared with TLC's slot table. Returns [(sev, key, msg, case)]."""
+    import warnings
+    import numpy as np
+    res = []
+    tables = {"x": axis_slots(segsx, w), "y": axis_slots(segsy, h)}
+    for axis, n in (("x", w), ("y", h)):
+        et, es = tables[axis]
+        # every width of one signedness, each with as many of the axis' pixels as it can express
+        names = [t for t in NP_INTS if not t.endswith("64")]
+        names = names[variant % 2::2]                 # uint8, uint16, uint32  |  int8, int16, int32
+        for tname in names:
+            m = min(n, int(np.iinfo(tname).max) + 1)
+            idx = np.arange(m).astype(tname)
+            zero = getattr(np, tname)(0)
+            c = dict(case, axis=axis, index_dtype=tname, pixels="0..%d" % (m - 1))
+            try:
+                with warnings.catch_warnings():
+                    warnings.simplefilter("ignore")
+                    out = st.image_to_tile(idx, zero) if axis == "x" else st.image_to_tile(zero, idx)
+                    last = st.image_to_tile(idx[-1], zero) if axis == "x" else st.image_to_tile(zero, idx[-1])
+                t, sl = (out[0], out[2]) if axis == "x" else (out[1], out[3])
+                lt, ls = (last[0], last[2]) if axis == "x" else (last[1], last[3])
+                t, sl = np.asarray(t).astype(np.int64), np.asarray(sl).astype(np.int64)
+            except Exception as e:  # noqa
+                res.append(("V", KEY_NPINDEX, "image_to_tile of %s with a %s index array (pixels 0..%d of the %s axis) raised %r"
+                            % (case, tname, m - 1, axis, e), c))
+                continue
+            d = _first_diff(t, sl, et[:m], es[:m])
+            if d is not None:
+                res.append(("V", KEY_NPINDEX, "image_to_tile of %s with a %s index array over pixels 0..%d of the %s axis disagrees with the "
+                            "slot table: %s" % (case, tname, m - 1, axis, d), c))
+            elif (int(lt), int(ls)) != (int(et[m - 1]), int(es[m - 1])):
+                res.append(("V", KEY_NPINDEX, "image_to_tile of %s with the %s scalar %d (%s axis) = (%d, %d), slot table (%d, %d)"
+                            % (case, tname, m - 1, axis, int(lt), int(ls), int(et[m - 1]), int(es[m - 1])), c))
+    return res
+
+
+def subimage_with_np_args(parent, q, variant):
+    """compute_for_subimage with its four arguments as NumPy integer scalars. Returns (tiling or exception, description)."""
+    import warnings
+    args = [as_np_int(v, variant + j) for j, v in enumerate(q)]
+    how = ",".join(type(a).__name__ for a in args)
+    try:
+        with warnings.catch_warnings():
+            warnings.simplefilter("ignore")
+            return parent.compute_for_subimage(*args), how
+    except Exception as e:  # noqa
+        return e, how
+
+
 def _safe_observe(obj, w, h):
     try:
         return observe(obj, w, h)
@@ -425,6 +541,8 @@ def geometry_chunk(pairs):
             out.append(("V", "study:raises", "StudyTiling(%d, %d) raised %r" % (w, h, e), {"w": w, "h": h}))
             continue
         out.extend(compare_geometry("study", {"w": w, "h": h}, st, w, h, row, ax[2], ay[2]))
+        if (w + 2 * h) % 3 == 0:           # every third tiling is also asked with narrow NumPy index arrays / scalars
+            out.extend(repr_slots(st, w, h, ax[2], ay[2], {"w": w, "h": h}, w + h))
         if (w + 3 * h) % 4 == 0:           # every fourth tiling is also looked at after a transport
             how = TRANSPORTS[(w + h) % len(TRANSPORTS)]
             tcase = {"w": w, "h": h, "transport": how}
@@ -473,6 +591,17 @@ def sub_chunk(groups):
                 out.append(("V", "subimage:raises", "compute_for_subimage%s on %dx%d raised %r" % ((ix, iy, sw, sh), W, H, e), case))
                 continue
             out.extend(compare_geometry("subimage", case, st, sw, sh, row, ax[2], ay[2]))
+            # the same sub-image asked for with NumPy integers (narrowest type holding each value, signed, unsigned, mixed):
+            # the geometry is a function of the values
+            if i % 3 == 0:
+                stn, how = subimage_with_np_args(parent, (ix, iy, sw, sh), i // 3 + ix)
+                ncase_ = dict(case, args_as=how)
+                if isinstance(stn, Exception):
+                    out.append(("V", KEY_NPARGS, "compute_for_subimage%s on %dx%d with the arguments as NumPy integers (%s) raised %r"
+                                % ((ix, iy, sw, sh), W, H, how, stn), ncase_))
+                else:
+                    out.extend(coarse(quiet(compare_geometry, "subimage", ncase_, stn, sw, sh, row, ax[2], ay[2]), KEY_NPARGS, how))
+                out.extend(repr_slots(st, sw, sh, ax[2], ay[2], case, i // 3))
             # the same sub-image tiling after a transport (pickle protocols, copy, deepcopy, queue)
             how = TRANSPORTS[(i + ix + iy + sw) % len(TRANSPORTS)]
             tcase = dict(case, transport=how)
@@ -561,12 +690,81 @@ def punch_holes(a, mode, gx0, gy0, seed):
     return a
 
 
-def make_image(mode, w, h, seed, holes=None):
+MODE_KIND = {"F32": "F", "F64": "F", "F16x3": "F", "U8": "I", "I16": "I", "I32": "I", "RGB": "RGB", "RGBA": "RGBA"}
+
+
+def edge_value(mode, cls, dtype):
+    """The concrete pixel value of a value class of the spec (ValueClasses) in an image of this mode."""
+    import numpy as np
+    kind = MODE_KIND[mode]
+    if kind == "F":
+        fi = np.finfo(dtype)
+        return {"neginf": -np.inf, "negmax": fi.min, "negsub": -fi.smallest_subnormal, "negzero": -0.0, "zero": 0.0,
+                "possub": fi.smallest_subnormal, "posmin": fi.smallest_normal, "posmax": fi.max, "posinf": np.inf}[cls]
+    if kind == "I":
+        return {"one": 1, "max": np.iinfo(dtype).max}[cls]
+    if kind == "RGB":
+        return {"black": (0, 0, 0), "white": (255, 255, 255)}[cls]
+    return {"blackfaint": (0, 0, 0, 1), "whitefaint": (255, 255, 255, 1), "blackopaque": (0, 0, 0, 255), "whiteopaque": (255, 255, 255, 255)}[cls]
+
+
+def lay_edges(a, mode, gx0, gy0, seed):
+    """Pixels whose values sit at the edge of what the type can mean, laid out on the global tile grid (image pixel (0,0)
+    is global (gx0, gy0)).  The classes are the DEFINED classes of TLC's EdgeValueTable for the image's kind (floats: the
+    infinities, signed zeros, subnormals, smallest normal, largest finite; integers: 1 and the largest; colour: black and
+    white, alpha 1 and 255); every one of them is a defined pixel, so the expectation does not change.
+    1 a whole tile inside the image plus a 3-pixel rim holds ONE class (so does the last whole tile, another class); an
+      image without a whole tile gets the part inside its first / last tile filled instead
+    2 one image row and one image column (crossing every tile) hold one class each
+    3 every class at a handful of single pixels (F16x3: also in single channels), and at the image's corners."""
+    import numpy as np
+    g = np.random.default_rng(seed + 4241)
+    kind = MODE_KIND[mode]
+    classes = sorted(c for c, defined in T.values[kind].items() if defined and c != "ordinary")
+    if not classes:
+        raise RuntimeError("no value classes for kind %s" % kind)
+    h, w = a.shape[:2]
+    k0 = int(g.integers(0, len(classes)))
+
+    def val(j):
+        return edge_value(mode, classes[(k0 + j) % len(classes)], a.dtype)
+
+    def span(t, g0, n, rim=0):
+        return slice(max(0, t * TS - g0 - rim), min(n, (t + 1) * TS - g0 + rim))
+    txs = list(range((gx0 + TS - 1) // TS, (gx0 + w) // TS))       # tiles lying completely inside the image
+    tys = list(range((gy0 + TS - 1) // TS, (gy0 + h) // TS))
+    if w * h > 1:
+        if txs and tys:
+            a[span(tys[0], gy0, h, 3), span(txs[0], gx0, w, 3)] = val(0)
+            if len(txs) > 1 or len(tys) > 1:
+                a[span(tys[-1], gy0, h), span(txs[-1], gx0, w)] = val(1)
+        else:
+            a[span(gy0 // TS, gy0, h), span(gx0 // TS, gx0, w)] = val(0)
+            if (gx0 + w - 1) // TS != gx0 // TS or (gy0 + h - 1) // TS != gy0 // TS:
+                a[span((gy0 + h - 1) // TS, gy0, h), span((gx0 + w - 1) // TS, gx0, w)] = val(1)
+        a[int(g.integers(0, h)), :] = val(2)
+        a[:, int(g.integers(0, w))] = val(3)
+    for j in range(len(classes)):
+        for _ in range(5):
+            y, x = int(g.integers(0, h)), int(g.integers(0, w))
+            if mode == "F16x3" and _ % 2:
+                a[y, x, int(g.integers(0, 3))] = val(j)
+            else:
+                a[y, x] = val(j)
+    for j, (y, x) in enumerate(((0, 0), (0, w - 1), (h - 1, 0), (h - 1, w - 1))):
+        a[y, x] = val(4 + j)
+    return a
+
+
+def make_image(mode, w, h, seed, holes=None, edge=None):
     """A seeded image. Without `holes` every pixel is defined (no NaN, alpha >= 1, integers non-zero);
+    edge = (gx0, gy0) lays values at the edge of the type's meaning (all of them defined pixels) on the tile grid;
     holes = (gx0, gy0) punches undefined regions aligned with the tile grid (float modes and RGBA)."""
     import numpy as np
     if holes is not None:
-        return punch_holes(make_image(mode, w, h, seed), mode, holes[0], holes[1], seed)
+        return punch_holes(make_image(mode, w, h, seed, edge=edge), mode, holes[0], holes[1], seed)
+    if edge is not None:
+        return lay_edges(make_image(mode, w, h, seed), mode, edge[0], edge[1], seed)
     g = np.random.default_rng(seed)
     if mode == "F16x3":
         return (g.normal(size=(h, w, 3)) * 8).astype(np.float16)
@@ -690,7 +888,13 @@ def judge_mosaic(tag, case, mosaic, undefined, problems, img, gx0, gy0, mode):
             ys, xs = np.nonzero(d)
             if len(ys):
                 where = " (first difference at image pixel x=%d y=%d; %d pixels differ)" % (xs[0], ys[0], len(ys))
+                if cmpi.shape == img.shape:
+                    where = where[:-1] + "; the image holds %s there, the tiles %s)" % (
+                        np.array2string(np.asarray(img[ys[0], xs[0]])), np.array2string(np.asarray(cmpi[ys[0], xs[0]])))
         res.append(("V", tag + ":inside", "reassembled tiles of %s do not reproduce the image%s" % (case, where), case))
+    elif isfloat and not np.array_equal(np.signbit(inside), np.signbit(img)):
+        # equal as numbers (0.0 == -0.0; NaN is undefined whatever its sign): the sign bit is below what the property speaks of
+        res.append(("D", tag + ":sign-bit", "tiles of %s equal the image as numbers but the sign bit of a zero / NaN differs" % (case,), case))
     out = undefined.copy()
     out[gy0:gy0 + h, gx0:gx0 + w] = True
     if not out.all():
@@ -737,7 +941,10 @@ def reassembly_case(args):
     import tempfile
     import numpy as np
     kind, mode, fmt, dims, seed, scratch, flavour, holes = args
+    # image content: False plain | True undefined regions | "edge" values at the edge of the type's meaning | "edge+holes" both
     case = {"path": kind, "mode": mode, "format": fmt, "dims": list(dims), "seed": seed, "image_format": flavour, "holes": holes}
+    edge = holes in ("edge", "edge+holes")
+    holes = holes in (True, "edge+holes")
     res = []
     d = tempfile.mkdtemp(prefix="c08-", dir=scratch)
     sink = io.StringIO()
@@ -759,12 +966,14 @@ def reassembly_case(args):
             p2, lev = prow[0], prow[1]
             gx0 = T.subaxis[(p2, W, ix, sw)][0]
             gy0 = T.subaxis[(p2, H, iy, sh)][0]
-            parent = make_image(mode, W, H, seed, holes=(prow[2], prow[3]) if holes else None)
+            parent = make_image(mode, W, H, seed, holes=(prow[2], prow[3]) if holes else None, edge=(prow[2], prow[3]) if edge else None)
             img = np.ascontiguousarray(parent[iy:iy + sh, ix:ix + sw])
+            if edge:                            # ... and on the sub-image's own position in the grid
+                img = lay_edges(img, mode, gx0, gy0, seed + 1)
         else:
             w, h = dims
             p2, lev, gx0, gy0, _cnt = T.pair[(w, h)]
-            img = make_image(mode, w, h, seed, holes=(gx0, gy0) if holes else None)
+            img = make_image(mode, w, h, seed, holes=(gx0, gy0) if holes else None, edge=(gx0, gy0) if edge else None)
         out = os.path.join(d, "out")
         with contextlib.redirect_stdout(sink), contextlib.redirect_stderr(sink):
             try:
@@ -883,8 +1092,9 @@ def modes_case(case, fmt, dims, seed, d, sink):
         random.Random(seed).shuffle(modes)
     tiling = None
     for step, mode in enumerate(modes):
-        scase = dict(case, step=step, order=modes, mode=mode)
-        img = make_image(mode, w, h, seed + 17 * step)
+        scase = dict(case, step=step, order=modes, mode=mode, content="edge" if variant % 2 else "plain")
+        # every other history tiles images holding values at the edge of each mode's meaning
+        img = make_image(mode, w, h, seed + 17 * step, edge=(gx0, gy0) if variant % 2 else None)
         out = os.path.join(d, "out%d" % step)
         with contextlib.redirect_stdout(sink), contextlib.redirect_stderr(sink):
             try:
@@ -1177,7 +1387,14 @@ def run(ctx):
             if not quick:
                 huge += [(k, dd, 9, 1), (10, -1, k, dd), (k, dd, k, dd)]
     huge = sorted(set(huge))
-    ctx.tlc("MCTables", extra={"MCTables.tla": mc_tables(crit, maxlen, extra, full2d, sub2d, big, huge)}, cfg_text=TAB_CFG,
+    # sub-images of tilings wide enough that "global offset + sub-image offset" leaves the 8- and 16-bit integer ranges
+    bigsub = [(40000, 100, 30000, 0, 100, 50), (40000, 100, 200, 10, 300, 60), (66000, 10, 40000, 2, 700, 5),
+              (65537, 300, 32768, 100, 513, 2), (20000, 1025, 127, 128, 255, 256), (1025, 32769, 3, 32767, 1000, 2),
+              (300, 300, 100, 100, 100, 100), (300, 513, 200, 255, 100, 258), (16385, 1, 16000, 0, 385, 1)]
+    if not quick:
+        bigsub += [(40000, 33000, 30000, 30000, 257, 300), (8193, 8191, 127, 8000, 8000, 129), (32769, 300, 32767, 45, 2, 255),
+                   (65537, 1025, 65535, 1000, 2, 25), (4097, 4096, 255, 256, 3000, 3000)]
+    ctx.tlc("MCTables", extra={"MCTables.tla": mc_tables(crit, maxlen, extra, full2d, sub2d, big, huge, bigsub)}, cfg_text=TAB_CFG,
             env={"OUT": outp}, workers=1, timeout=3600, count=False)
     tab = json.load(open(outp))
     for i, cw in enumerate(crit):
@@ -1187,6 +1404,10 @@ def run(ctx):
     for p, row in zip(extra, tab["extra"]):
         T.pair[tuple(p)] = tuple(row)
     T.filerow = {k: list(v) for k, v in tab["filerow"].items()}
+    T.values = {kind: {c: bool(d) for c, d in v.items()} for kind, v in tab["values"].items()}
+    if set(T.values) != set(MODE_KIND.values()) or not all(any(v.values()) for v in T.values.values()):
+        ctx.machinery("value-class table incomplete: %r" % (T.values,))
+    ctx.note("value_classes", {k: sorted(c for c, d in v.items() if d and c != "ordinary") for k, v in T.values.items()})
     if sorted(T.filerow["topdown"]) != list(range(TS)) or sorted(T.filerow["bottomup"]) != list(range(TS)):
         ctx.machinery("file-row tables are not permutations of 0..255")
     # the harness' cross product must be the spec's Rects: checked on every directly evaluated 2-D case
@@ -1223,12 +1444,14 @@ def run(ctx):
     nviol = [0]
 
     perkey = {}
+    firstmsg = {}
 
     def report(items, counted):
         for sev, key, msg, case in items:
             if sev == "V":
                 nviol[0] += 1
                 perkey[key] = perkey.get(key, 0) + 1
+                firstmsg.setdefault(key, msg)
                 if perkey[key] <= 100:          # every failing case is counted, the first 100 per monitor are written out
                     ctx.violation("C08:" + key, msg, {"case": case})
             elif sev == "D":
@@ -1299,6 +1522,23 @@ def run(ctx):
             for rep_ in range(2 if quick else 8):
                 q = bigsubs[rng.randrange(len(bigsubs))]
                 cases.append(("sub", mode, fmt, q, seed + len(cases), ctx.scratch, fmt, True))
+        # pixel values at the edge of the type's meaning (TLC: ValueClasses - the infinities, signed zeros, subnormals, largest
+        # finite / integer values, black / white, alpha 1): every mode x lossless format, whole tiles of one class, rows and
+        # columns crossing every tile, single pixels; also together with undefined regions, and through the CLI
+        esizes = [(700, 600), (257, 255), (300, 513), (512, 512)] if quick else [(700, 600), (257, 255), (300, 513), (512, 512), (1025, 258), (768, 1024), (1, 1), (513, 2)]
+        ne = 0
+        for (mode, fmt) in MODE_FORMATS + ([("I32", "npy"), ("I32", "fits")] if not quick else []):
+            for rep_ in range(1 if quick else 4):
+                cases.append((("lib", "builder")[ne % 2], mode, fmt, esizes[ne % len(esizes)], seed + len(cases), ctx.scratch, fmt, "edge"))
+                ne += 1
+                q = bigsubs[rng.randrange(len(bigsubs))]
+                cases.append(("sub", mode, fmt, q, seed + len(cases), ctx.scratch, fmt, "edge"))
+        for k, (mode, fmt) in enumerate(HOLE_MODE_FORMATS):
+            for rep_ in range(1 if quick else 3):
+                cases.append((("builder", "lib")[(k + rep_) % 2], mode, fmt, hsizes[(k + rep_) % len(hsizes)], seed + len(cases), ctx.scratch, fmt, "edge+holes"))
+        for (mode, fmt, dims) in [("F32", "fits", (300, 513)), ("F64", "fits", (257, 255)), ("F64", "npy", (513, 2)), ("I16", "fits", (257, 255)),
+                                  ("RGBA", "png", (300, 513))]:
+            cases.append(("cli", mode, fmt, dims, seed + len(cases), ctx.scratch, "file:" + fmt, "edge"))
         # directory histories: images of one layout tiled one after the other into ONE directory
         rsizes = [(512, 512), (700, 600)] if quick else [(512, 512), (700, 600), (300, 513), (768, 1024), (257, 255)]
         for (mode, fmt) in HOLE_MODE_FORMATS:
@@ -1325,7 +1565,7 @@ def run(ctx):
         if only is not None:
             cases = [c for c in cases if "path" in only and [c[0], c[1], c[2], list(c[3]), c[4], c[6], c[7]] ==
                      [only["path"], only["mode"], only["format"], list(only["dims"]), only["seed"], only.get("image_format", c[2]),
-                      bool(only.get("holes", False))]]
+                      only.get("holes", False)]]
         for (res, case) in pool.imap(reassembly_case, cases, chunksize=2):
             ctx.count()
             ctx.trace_ok()
@@ -1388,6 +1628,7 @@ def run(ctx):
         ctx.note("process_trips", len(trip))
     if nviol[0]:
         ctx.note("failing_cases_per_monitor", dict(perkey))
+        print("C08 failing cases per monitor (so far): %s" % (dict(perkey),))
 
     # ---- sampled beyond the exhaustive bound: TLC evaluated SegsOK / P2Minimal / Centred for these, the code must agree
     from toasty.study import StudyTiling
@@ -1396,10 +1637,38 @@ def run(ctx):
             continue
         row = tuple(rec["row"])
         st = StudyTiling(w, h)
-        report(compare_geometry("study", {"w": w, "h": h}, st, w, h, row, [tuple(s) for s in rec["sx"]], [tuple(s) for s in rec["sy"]]), None)
+        sx, sy = [tuple(s) for s in rec["sx"]], [tuple(s) for s in rec["sy"]]
+        report(compare_geometry("study", {"w": w, "h": h}, st, w, h, row, sx, sy), None)
+        # ... and asked with index arrays of narrow NumPy integer types (unsigned and signed)
+        report(repr_slots(st, w, h, sx, sy, {"w": w, "h": h}, 0) + repr_slots(st, w, h, sx, sy, {"w": w, "h": h}, 1), None)
         ctx.count()
         ctx.trace_ok()
         ctx.distinct(("full", w, h))
+    # ---- sub-images of wide tilings, their offsets / sizes as Python integers and as NumPy integers of every fitting kind
+    for q, rec in zip(bigsub, tab["bigsub"]):
+        W, H, ix, iy, sw, sh = q
+        case = {"W": W, "H": H, "ix": ix, "iy": iy, "sw": sw, "sh": sh}
+        if only is not None and not ("path" not in only and all(only.get(k) == v for k, v in case.items())):
+            continue
+        row, sx, sy = tuple(rec["row"]), [tuple(s) for s in rec["sx"]], [tuple(s) for s in rec["sy"]]
+        parent = StudyTiling(W, H)
+        try:
+            st = parent.compute_for_subimage(ix, iy, sw, sh)
+            report(compare_geometry("subimage", case, st, sw, sh, row, sx, sy), None)
+            report(repr_slots(st, sw, sh, sx, sy, case, 0) + repr_slots(st, sw, sh, sx, sy, case, 1), None)
+        except Exception as e:  # noqa
+            report([("V", "subimage:raises", "compute_for_subimage%s on %dx%d raised %r" % ((ix, iy, sw, sh), W, H, e), case)], None)
+        for variant in range(5):
+            stn, how = subimage_with_np_args(parent, (ix, iy, sw, sh), variant)
+            ncase = dict(case, args_as=how)
+            if isinstance(stn, Exception):
+                report([("V", KEY_NPARGS, "compute_for_subimage%s on %dx%d with the arguments as NumPy integers (%s) raised %r"
+                         % ((ix, iy, sw, sh), W, H, how, stn), ncase)], None)
+            else:
+                report(coarse(quiet(compare_geometry, "subimage", ncase, stn, sw, sh, row, sx, sy), KEY_NPARGS, how), None)
+            ctx.count()
+            ctx.trace_ok()
+        ctx.distinct(("sub",) + tuple(q))
     # ---- sizes across the whole integer range (2^k + d): TLC's symbolic tables, no image instantiated
     for q, rec in zip(huge, tab["huge"]):
         w, h = 2 ** q[0] + q[1], 2 ** q[2] + q[3]
@@ -1409,6 +1678,10 @@ def run(ctx):
         ctx.count()
         ctx.trace_ok()
         ctx.distinct(("full", w, h))
+    if perkey:
+        print("C08 failing cases per monitor: %s" % (dict(perkey),))
+        for k_, m_ in sorted(firstmsg.items()):
+            print("  first [%s]: %s" % (k_, m_[:600]))
     ctx.note("symbolic_sizes", {"form": "2^k + d, d in -1..1", "k_max": kmax, "pairs": len(huge),
                                 "SymAgrees_checked_by_TLC_for": "every pair with k <= 29"})
     # a few written-out cases for the evidence
